@@ -519,6 +519,36 @@ class RecBadBefore:
 class HoldsRecBad:
     u: Union[str, RecBadAfter] = ""
     v: Union[RecBadBefore, int] = 0
+# serialized methods with their own conversion: the references are those of the conversion target
+@dataclass
+class SPoint:
+    x: int = 0
+@dataclass
+class SPointView:
+    s: str = ""
+def spoint_view(p: SPoint) -> SPointView:
+    return SPointView(str(p.x))
+@dataclass
+class Segment:
+    n: int = 0
+    @serialized(conversion=spoint_view)
+    def start(self) -> SPoint:
+        return SPoint(0)
+    @serialized(conversion=spoint_view)
+    def end(self) -> SPoint:
+        return SPoint(1)
+class RawNode:
+    pass
+@dataclass
+class NodeView:
+    kids: List["NodeView"] = field(default_factory=list)
+def raw_view(r: RawNode) -> NodeView:
+    return NodeView()
+@dataclass
+class Document:
+    @serialized(conversion=raw_view)
+    def root(self) -> RawNode:
+        return RawNode()
 # one named type reached through equivalent spellings of a builtin / abstract container
 NamedD1 = Annotated[Dict[str, int], type_name("StrIntMap")]
 NamedD2 = Annotated[dict[str, int], type_name("StrIntMap")]
@@ -536,6 +566,8 @@ class HoldsPages:
     p2: Page[list[int]]
     p3: List[Page[Sequence[int]]]
 EXPECT = {
+    "Segment": (Segment, {"SPointView"}, {"Segment", "SPointView"}, "ser"),
+    "Document": (Document, {"NodeView"}, {"Document", "NodeView"}, "ser"),
     "HoldsSpellings": (HoldsSpellings, {"StrIntMap"}, {"HoldsSpellings", "StrIntMap"}),
     "HoldsPages": (HoldsPages, {"IntPage"}, {"HoldsPages", "IntPage"}),
     "PetD": (PetD, {"PetD", "CatD", "DogD"}, {"PetD", "CatD", "DogD"}),
